@@ -409,7 +409,7 @@ func (g *G) Subscribe(name string, topics ...string) {
 func (g *G) Gone(name string) {
 	g.mu.Lock()
 	delete(g.subs, name)
-	g.stamp()
+	g.cbs = append(g.cbs, CB{Seq: g.stamp(), Member: name, Kind: "gone", End: true})
 	g.mu.Unlock()
 }
 
@@ -526,14 +526,45 @@ func (g *G) Subscribed() []string {
 // OnPartitionsRevoked/OnPartitionsLost that names it. It reports every
 // OnPartitionsAssigned that started while a DIFFERENT member's interval for
 // the same partition was still open, and returns the final owner sets.
+//
+// The log also carries a "gone" entry when a member's LeaveGroup/Close
+// returned. If the open interval belongs to a member that has already gone and
+// that is not inside a revoke/lost callback naming the partition, the failure
+// is a different one - the member left the group without ANY callback ever
+// revoking that partition - and is reported under its own key
+// (revoke-missing-on-leave) so that it can never mask, or be masked by, a
+// real overlap (dup-owner).
 func Owners(cbs []CB, violate func(key, format string, a ...any)) map[TP]map[string]int64 {
 	owners := map[TP]map[string]int64{} // tp -> member -> seq of the assigned START
+	gone := map[string]int64{}
+	type mtp struct {
+		m  string
+		tp TP
+	}
+	revoking := map[mtp]int{}
 	for _, e := range cbs {
 		switch {
+		case e.Kind == "gone":
+			gone[e.Member] = e.Seq
+		case (e.Kind == "revoked" || e.Kind == "lost") && !e.End:
+			for _, tp := range e.Parts {
+				revoking[mtp{e.Member, tp}]++
+			}
 		case e.Kind == "assigned" && !e.End:
 			for _, tp := range e.Parts {
 				for other, since := range owners[tp] {
-					if other != e.Member && violate != nil {
+					if other == e.Member {
+						continue
+					}
+					if at, left := gone[other]; left && revoking[mtp{other, tp}] == 0 {
+						if violate != nil {
+							violate("revoke-missing-on-leave", "member %s left the group (LeaveGroup/Close returned at seq %d) without any OnPartitionsRevoked/OnPartitionsLost naming %v, which it was assigned at seq %d; member %s's OnPartitionsAssigned for it started at seq %d; callback log: %s",
+								other, at, tp, since, e.Member, e.Seq, FormatCBs(cbs, e.Seq))
+						}
+						delete(owners[tp], other)
+						continue
+					}
+					if violate != nil {
 						violate("dup-owner", "OnPartitionsAssigned of member %s for %v started (seq %d) while member %s, assigned it at seq %d, has not completed OnPartitionsRevoked/OnPartitionsLost for it; callback log: %s",
 							e.Member, tp, e.Seq, other, since, FormatCBs(cbs, e.Seq))
 					}
@@ -548,6 +579,7 @@ func Owners(cbs []CB, violate func(key, format string, a ...any)) map[TP]map[str
 		case (e.Kind == "revoked" || e.Kind == "lost") && e.End:
 			for _, tp := range e.Parts {
 				delete(owners[tp], e.Member)
+				revoking[mtp{e.Member, tp}]--
 			}
 		}
 	}
@@ -585,19 +617,17 @@ func (g *G) Converged() (bool, string) {
 		for _, pi := range g.C.PartitionInfos(t) {
 			tp := TP{t, pi.Partition}
 			var os []string
+			// Members that left are not members: what their callbacks did
+			// or did not revoke is the exclusive-ownership oracle's business
+			// (dup-owner / revoke-missing-on-leave), not convergence's.
 			for m := range owners[tp] {
-				os = append(os, m)
+				if live[m] {
+					os = append(os, m)
+				}
 			}
 			sort.Strings(os)
-			if len(os) != 1 || !live[os[0]] {
+			if len(os) != 1 {
 				bad = append(bad, fmt.Sprintf("%v owned by %v", tp, os))
-			}
-		}
-	}
-	for tp, ms := range owners {
-		for m := range ms {
-			if !live[m] {
-				bad = append(bad, fmt.Sprintf("%v still owned by departed member %s", tp, m))
 			}
 		}
 	}
@@ -611,6 +641,9 @@ func (g *G) Converged() (bool, string) {
 func Outcome(cbs []CB) string {
 	var b strings.Builder
 	for _, e := range cbs {
+		if e.Kind == "gone" {
+			continue
+		}
 		ph := '+'
 		if e.End {
 			ph = '-'
